@@ -10,6 +10,9 @@
 #include <algorithm>
 #include <sstream>
 #include <sched.h>
+#include <sys/wait.h>
+#include <unistd.h>
+#include <signal.h>
 
 struct Rec { long seq; std::string json; };
 static std::mutex g_mu; static std::vector<Rec> g_log; static std::atomic<long> g_seq(0);
@@ -112,6 +115,28 @@ int main(int argc, char** argv) {
     t_tid = 0; int helper = vh_arg(argc, argv, "--helper", 0);
     Shared S; int n = 0; VhRng r(seed);
     logev("\"e\":\"ThreadStart\",\"tid\":0");
+    // workspaces used by the workers are allocated by the main thread, which outlives them (a Lagrange polynomial keeps a pointer to the FFT processor of the
+    // thread that created it: see the probe below and finding D8)
+    for (int q = 0; q < 64; q++) { Ws w; w.la = new_LagrangeHalfCPolynomial(1024); w.lb = new_LagrangeHalfCPolynomial(1024); w.lr = new_LagrangeHalfCPolynomial(1024); S.ws.push_back(w); }
+    if (vh_arg(argc, argv, "--probe", 0)) {
+        // probe: a polynomial created by a thread that has exited, then used by the main thread.  Events only name identities (which processor the polynomial
+        // points to, who created it); the use itself runs in a child process and its outcome is recorded but not judged here.
+        auto polyev = [&](const char* e, int tid, const LagrangeHalfCPolynomial* P, const char* extra) { long sq = g_seq.fetch_add(1); std::lock_guard<std::mutex> l(g_mu); char tmp[256];
+            snprintf(tmp, sizeof tmp, "\"e\":\"%s\",\"tid\":%d,\"poly\":%d,\"proc\":%d%s", e, tid, idof(P), idof(P->precomp), extra); Rec r; r.seq = sq; r.json = tmp; g_log.push_back(r); };
+        auto use = [&](LagrangeHalfCPolynomial* P) { fflush(stdout); pid_t pid = fork(); if (pid == 0) { signal(SIGSEGV, SIG_DFL); LagrangeHalfCPolynomialClear(P); LagrangeHalfCPolynomialAddTorusConstant(P, 12345); _exit(0); }
+            int st = 0; waitpid(pid, &st, 0); char ex[64]; snprintf(ex, sizeof ex, ",\"outcome\":\"%s\"", (WIFEXITED(st) && WEXITSTATUS(st) == 0) ? "ok" : "signal"); polyev("PolyUse", 0, P, ex); };
+        LagrangeHalfCPolynomial* Pm = new_LagrangeHalfCPolynomial(1024); polyev("PolyNew", 0, Pm, "");
+        LagrangeHalfCPolynomial* Px = 0;
+        std::thread x([&]() { t_tid = g_next_tid.fetch_add(1) + 1; { char tmp[64]; snprintf(tmp, sizeof tmp, "\"e\":\"ThreadStart\",\"tid\":%d", t_tid); logev(tmp); }
+            Px = new_LagrangeHalfCPolynomial(1024); polyev("PolyNew", t_tid, Px, ""); { char tmp[96]; snprintf(tmp, sizeof tmp, "\"e\":\"ThreadEnd\",\"tid\":%d,\"decomp\":0", t_tid); logev(tmp); } });
+        x.join();
+        { long sq = g_seq.fetch_add(1); std::lock_guard<std::mutex> l(g_mu); Rec rr; rr.seq = sq; rr.json = "\"e\":\"Joined\",\"upto\":" + std::to_string(g_next_tid.load()); g_log.push_back(rr); }
+        use(Pm);          // control: created by the main thread, which is alive
+        use(Px);          // created by a thread that has exited
+        std::sort(g_log.begin(), g_log.end(), [](const Rec& a, const Rec& b) { return a.seq < b.seq; });
+        for (auto& rec : g_log) printf("{\"seq\":%ld,%s}\n", rec.seq, rec.json.c_str());
+        fflush(stdout); return 0;
+    }
     auto setup = [&]() {
     uint32_t sv[2] = {seed, 0x7eadu}; tfhe_random_generator_setSeed(sv, 2);
     S.p = new_default_gate_bootstrapping_parameters(lambda); S.sk = new_random_gate_bootstrapping_secret_keyset(S.p); S.nin = 4; S.in = new_gate_bootstrapping_ciphertext_array(S.nin, S.p);
@@ -121,7 +146,6 @@ int main(int argc, char** argv) {
     // inputs 0 and 1 re-randomised (same phases) so that the body of NAND's combination (1/8 - a.b - b.b) is exactly 0: the rounded body barb is 0
     { const int32_t* key = S.sk->lwe_key->key; int i = 0; while (i < n && !key[i]) i++;
       if (i < n) { uint32_t tgt[2] = {0u, (uint32_t)modSwitchToTorus32(1, 8)}; for (int q = 0; q < 2; q++) { LweSample* X = S.in + q; uint32_t d = tgt[q] - (uint32_t)X->b; X->a[i] = (Torus32)((uint32_t)X->a[i] + d); X->b = (Torus32)((uint32_t)X->b + d); S.inh[q] = hLwe(X, n); } } }
-    for (int q = 0; q < 64; q++) { Ws w; w.la = new_LagrangeHalfCPolynomial(1024); w.lb = new_LagrangeHalfCPolynomial(1024); w.lr = new_LagrangeHalfCPolynomial(1024); S.ws.push_back(w); }
     for (unsigned ps = 7000; ps < 7004; ps++) ev_eval("lagrange_product", S.keyh, {(uint64_t)ps}, lagr_product(S.ws[0], ps), "ref");
     // sequential single-thread reference: every (gate, inputs) combination the workers may use
     { const TFheGateBootstrappingCloudKeySet* bk = &S.sk->cloud; LweSample* out = new_gate_bootstrapping_ciphertext(S.p);
